@@ -266,6 +266,12 @@ func C16(ctx *core.Ctx) {
 		if gm := r.Fn("C16.R4", name); gm != nil {
 			ok := false
 			for _, vs := range ReturnedValues(gm) {
+				// the copy may be made by a helper of the package applied to the provider's field
+				if hc, isC := CallValue(vs[0]); isC && hc.Static != nil {
+					if pi := sliceCopierParam(hc.Static); pi >= 0 && pi < len(hc.Common.Args) && fieldNameOfValue(hc.Common.Args[pi]) == "middleware" {
+						ok = true
+					}
+				}
 				if mk, isMk := ssax.Strip(vs[0]).(*ssa.MakeSlice); isMk {
 					for _, c := range ssax.CallsTo(gm, "builtin.copy") {
 						if ssax.Strip(c.Common.Args[0]) == ssa.Value(mk) && fieldNameOfValue(c.Common.Args[1]) == "middleware" {
@@ -398,7 +404,11 @@ func C16(ctx *core.Ctx) {
 			for _, vs := range ReturnedValues(cl) {
 				for _, v := range vs {
 					if _, isSl := v.Type().Underlying().(*types.Slice); isSl {
-						if _, isMk := ssax.Strip(v).(*ssa.MakeSlice); !isMk {
+						_, isMk := ssax.Strip(v).(*ssa.MakeSlice)
+						if hc, isC := CallValue(v); isC && hc.Static != nil && hc.Static.Pkg == r.Pkg && returnsFreshSlice(hc.Static) {
+							isMk = true // built by a helper that returns a slice it makes itself
+						}
+						if !isMk {
 							bad = append(bad, "returns "+ssax.AddrKey(ssax.Strip(v)))
 						}
 					}
@@ -443,4 +453,41 @@ func C16(ctx *core.Ctx) {
 			}
 		}
 	}
+}
+
+// sliceCopierParam: if fn returns make(T, len(p)) filled by copy(_, p) for one
+// of its slice parameters p on every path, the index of p; otherwise -1.
+func sliceCopierParam(fn *ssa.Function) int {
+	if fn == nil || len(fn.Blocks) == 0 {
+		return -1
+	}
+	idx := -1
+	for _, vs := range ReturnedValues(fn) {
+		if len(vs) != 1 {
+			return -1
+		}
+		mk, ok := ssax.Strip(vs[0]).(*ssa.MakeSlice)
+		if !ok {
+			return -1
+		}
+		lc, ok := CallValue(mk.Len)
+		if !ok || lc.FullName() != "builtin.len" {
+			return -1
+		}
+		found := -1
+		for i, p := range fn.Params {
+			if ssax.Strip(lc.Common.Args[0]) == ssa.Value(p) {
+				for _, c := range ssax.CallsTo(fn, "builtin.copy") {
+					if ssax.Strip(c.Common.Args[0]) == ssa.Value(mk) && ssax.Strip(c.Common.Args[1]) == ssa.Value(p) {
+						found = i
+					}
+				}
+			}
+		}
+		if found < 0 || (idx >= 0 && idx != found) {
+			return -1
+		}
+		idx = found
+	}
+	return idx
 }
